@@ -252,7 +252,7 @@ def c01(tier, repo=None):
     else:
         fams = [("p3", consts("pregel", 3, 4, 1, 2, maxchoice=(4,)), {"timeout": 1800}),
                 ("p2m", consts("pregel", 2, 4, 1, 2, multi=True, maxchoice=(0, 2), ends=3), {}),
-                ("p4s", consts("pregel", 4, 7, 2, 2, multi=True, maxchoice=(5,), ends=3), {"simulate": "num=60000", "depth": 14, "seed": vlib.SEED, "workers": 1})]
+                ("p4s", consts("pregel", 4, 7, 2, 2, multi=True, maxchoice=(5,), ends=3), {"simulate": "num=200000", "depth": 18, "seed": vlib.SEED, "workers": 1})]
         models = ["MC_EinoRun_pregel2.cfg", "MC_EinoRun_pregel3.cfg"]
     def chains(rnd):
         scs, run = engine.gen_chains("ChainGen_q.cfg" if tier == "quick" else "ChainGen_t.cfg")
@@ -283,8 +283,8 @@ def c02(tier, repo=None):
     else:
         fams = [("d3", consts("dag", 3, 5, 2, 0, multi=True), {"timeout": 1800}),
                 ("w3", consts("wf", 3, 5, 2, 0, multi=True), {"timeout": 1800}),
-                ("d4s", consts("dag", 4, 7, 2, 0, multi=True, ends=3), {"simulate": "num=50000", "depth": 14, "seed": vlib.SEED, "workers": 1}),
-                ("w4s", consts("wf", 4, 7, 2, 0, multi=True, ends=3), {"simulate": "num=50000", "depth": 14, "seed": vlib.SEED, "workers": 1}),
+                ("d4s", consts("dag", 4, 7, 2, 0, multi=True, ends=3), {"simulate": "num=200000", "depth": 18, "seed": vlib.SEED, "workers": 1}),
+                ("w4s", consts("wf", 4, 7, 2, 0, multi=True, ends=3), {"simulate": "num=200000", "depth": 18, "seed": vlib.SEED, "workers": 1}),
                 ("d3o", consts("dag", 3, 4, 1, 0, orphans=True), {})]
         models = ["MC_EinoRun_dag3.cfg", "MC_EinoRun_wf3.cfg"]
         limit = 250000
@@ -304,8 +304,8 @@ def _intr_families(tier):
             ("ip3", consts("pregel", 3, 3, 1, 1, marks=2, rerun=True, maxchoice=(3,)), {"timeout": 1800}),
             ("id3", consts("dag", 3, 4, 1, 0, marks=2, rerun=True, multi=True), {"timeout": 1800}),
             ("iw3", consts("wf", 3, 4, 1, 0, marks=2, rerun=True), {"timeout": 1800}),
-            ("ip4s", consts("pregel", 4, 6, 2, 2, marks=3, rerun=True, multi=True, maxchoice=(4,)), {"simulate": "num=40000", "depth": 14, "seed": vlib.SEED, "workers": 1}),
-            ("id4s", consts("dag", 4, 7, 2, 0, marks=3, rerun=True, multi=True), {"simulate": "num=40000", "depth": 14, "seed": vlib.SEED, "workers": 1})], 300000
+            ("ip4s", consts("pregel", 4, 6, 2, 2, marks=3, rerun=True, multi=True, maxchoice=(4,)), {"simulate": "num=150000", "depth": 18, "seed": vlib.SEED, "workers": 1}),
+            ("id4s", consts("dag", 4, 7, 2, 0, marks=3, rerun=True, multi=True), {"simulate": "num=150000", "depth": 18, "seed": vlib.SEED, "workers": 1})], 300000
 
 
 def c05(tier, repo=None):
@@ -367,7 +367,7 @@ def c11(tier, repo=None):
         fams = [("sd3", consts("dag", 3, 4, 1, 0, marks=2, rerun=True, multi=True), {"timeout": 1800}),
                 ("sw3", consts("wf", 3, 4, 1, 0, marks=2, rerun=True), {"timeout": 1800}),
                 ("sp3", consts("pregel", 3, 3, 1, 1, marks=2, rerun=True, maxchoice=(3,)), {"timeout": 1800}),
-                ("sd4s", consts("dag", 4, 7, 2, 0, marks=2, rerun=True, multi=True), {"simulate": "num=40000", "depth": 14, "seed": vlib.SEED, "workers": 1})]
+                ("sd4s", consts("dag", 4, 7, 2, 0, marks=2, rerun=True, multi=True), {"simulate": "num=150000", "depth": 18, "seed": vlib.SEED, "workers": 1})]
         limit = 200000
     return run_engine_check("C11", tier, model_cfgs=["MC_EinoRun_pregel2.cfg"], families=fams, decorate_kw={"state_variants": True},
                             nontrivial=nontrivial, nest_frac=0.15, nest_marks=True, limit=limit, repo=repo,
@@ -474,4 +474,31 @@ def c09(tier, repo=None):
     return code
 
 
+def replay_file(prop):
+    """bin/check <prop> --replay <file>: run the recorded scenario again on the current tree and judge it with the rule"""
+    def run(path):
+        d = json.load(open(path))
+        case = d["case"]
+        if "scenario" not in case:
+            log("replay file holds no engine scenario (race report / agent case): re-run the check instead")
+            return 2
+        sc = case["scenario"]
+        if case.get("callers"):
+            lines, _, _ = engine.replay_concurrent([sc], callers=case["callers"])
+        else:
+            lines, _ = engine.replay([sc])
+        res = engine.validate(lines, nproc=1)
+        bad = [b for b in res["bad"] if prop in owners(b[2], prop) or d.get("detail") == b[2]]
+        for ln in lines[:60]:
+            log("  " + ln[:300])
+        if bad:
+            log("VIOLATION property=%s replay=%s" % (prop, path))
+            log("  sig=%s (rejected again: %s)" % (d.get("sig"), sorted({b[2] for b in bad})))
+            return 1
+        log("[%s] replay accepted by the rule on the current tree" % prop)
+        return 0
+    return run
+
+
+REPLAY = {p: replay_file(p) for p in ("C01", "C02", "C05", "C06", "C09", "C11", "C13")}
 CHECKS = {"C09": c09, "C01": c01, "C02": c02, "C05": c05, "C06": c06, "C13": c13, "C11": c11}
